@@ -66,6 +66,9 @@ func CheckPots(contrib []int64, fold []bool, pots []*pot.Pot) (string, string) {
 				elig = append(elig, i)
 			}
 		}
+		if p.Wager != p.Level-prev {
+			return "pot-wager", fmt.Sprintf("pot %d (level %d..%d) is published with per-player amount %d", pi, prev, p.Level, p.Wager)
+		}
 		if p.Total != want {
 			return "pot-total", fmt.Sprintf("pot %d (level %d..%d) total %d, players put in %d", pi, prev, p.Level, p.Total, want)
 		}
